@@ -30,6 +30,8 @@ pub fn configs_c09(tier: Tier) -> Vec<Box<dyn Config>> {
         v.push(map_cfg(Plan::Zero, if q { 13 } else { 16 }, p.clone(), tier, "map-iter"));
         v.push(map_cfg(Plan::Seq, if q { 4 } else { 6 }, p.clone(), tier, "map-iter"));
         v.push(map_cfg(Plan::Last, if q { 5 } else { 7 }, p.clone(), tier, "map-iter"));
+        // first key in the LAST bucket: with 15+ keys the table has two groups and the last group is occupied
+        v.push(map_cfg(Plan::Max, if q { 15 } else { 17 }, p.clone(), tier, "map-iter"));
     } else {
         v.push(map_cfg(Plan::Zero, if q { 12 } else { 14 }, p.clone(), tier, "map-iter"));
         v.push(map_cfg(Plan::Seq, if q { 4 } else { 6 }, p.clone(), tier, "map-iter"));
@@ -46,8 +48,10 @@ pub fn configs_c10(tier: Tier) -> Vec<Box<dyn Config>> {
     if sse2 {
         v.push(map_cfg(Plan::Zero, if q { 11 } else { 14 }, p.clone(), tier, "map-removal"));
         v.push(map_cfg(Plan::Seq, if q { 4 } else { 6 }, p.clone(), tier, "map-removal"));
+        v.push(Box::new(super::c02::ZstTables { tier }));
     } else {
         v.push(map_cfg(Plan::Zero, if q { 11 } else { 13 }, p.clone(), tier, "map-removal"));
+        v.push(Box::new(super::c02::ZstTables { tier }));
         v.push(map_cfg(Plan::Cluster(2), if q { 6 } else { 8 }, p.clone(), tier, "map-removal"));
     }
     v
